@@ -4,20 +4,20 @@
 EXTENDS CTBuild
 CONSTANT Depth
 VARIABLE steps, built
-GInfo == [g1 |-> [valid |-> TRUE, warn |-> FALSE, sr |-> 0, rr |-> 0, expect |-> -1, expectrr |-> -1, tok |-> 1, names |-> 1],
-          g2 |-> [valid |-> TRUE, warn |-> TRUE, sr |-> 0, rr |-> 0, expect |-> -1, expectrr |-> -1, tok |-> 2, names |-> 1],
-          gbad |-> [valid |-> FALSE, warn |-> FALSE, sr |-> 0, rr |-> 0, expect |-> -1, expectrr |-> -1, tok |-> 0, names |-> 0],
-          gconf |-> [valid |-> TRUE, warn |-> FALSE, sr |-> 1, rr |-> 0, expect |-> -1, expectrr |-> -1, tok |-> 1, names |-> 1]]
-LInfo == [l1 |-> [valid |-> TRUE, names |-> 1], l2 |-> [valid |-> TRUE, names |-> 1], lbad |-> [valid |-> FALSE, names |-> 0]]
-O0 == [k \in ParserCacheKeys \cup LexerKeys |->
+GInfo == [g1 |-> [valid |-> TRUE, warn |-> FALSE, sr |-> 0, rr |-> 0, expect |-> -1, expectrr |-> -1, tok |-> 1, names |-> {"a", "b"}],
+          g2 |-> [valid |-> TRUE, warn |-> TRUE, sr |-> 0, rr |-> 0, expect |-> -1, expectrr |-> -1, tok |-> 2, names |-> {"a", "b"}],
+          gbad |-> [valid |-> FALSE, warn |-> FALSE, sr |-> 0, rr |-> 0, expect |-> -1, expectrr |-> -1, tok |-> 0, names |-> {}],
+          gconf |-> [valid |-> TRUE, warn |-> FALSE, sr |-> 1, rr |-> 0, expect |-> -1, expectrr |-> -1, tok |-> 1, names |-> {"a", "b"}]]
+LInfo == [l1 |-> [valid |-> TRUE, names |-> {"a", "b"}], l2 |-> [valid |-> TRUE, names |-> {"a", "b", "c"}], lbad |-> [valid |-> FALSE, names |-> {}]]
+O0 == [k \in ParserCacheKeys \cup LexerKeys \cup {"lex_wae"} |->
          CASE k = "eoc" -> TRUE [] k = "wae" -> FALSE [] k = "showw" -> FALSE
-           [] k = "case_insensitive" -> FALSE [] k = "dot_matches_new_line" -> TRUE [] OTHER -> 0]
+           [] k = "case_insensitive" -> FALSE [] k = "lex_wae" -> FALSE [] k = "dot_matches_new_line" -> TRUE [] OTHER -> 0]
 MCInit == Init("g1", "l1", O0) /\ steps = 0 /\ built = FALSE
 MCNext ==
   /\ steps < Depth /\ steps' = steps + 1
   /\ \/ (\E v \in DOMAIN GInfo : EditGrammar(v)) /\ built' = FALSE
      \/ (\E v \in DOMAIN LInfo : EditLexer(v)) /\ built' = FALSE
-     \/ (\E k \in {"eoc", "wae", "vis"} : \E x \in {TRUE, FALSE} : k # "vis" /\ SetOpt(k, x)) /\ built' = FALSE
+     \/ (\E k \in {"eoc", "wae", "lex_wae"} : \E x \in {TRUE, FALSE} : SetOpt(k, x)) /\ built' = FALSE
      \/ (\E x \in {0, 1} : SetOpt("vis", x)) /\ built' = FALSE
      \/ BuildParser(GInfo) /\ built' = TRUE
      \/ BuildBoth(GInfo, LInfo) /\ built' = TRUE
